@@ -48,6 +48,18 @@ func genResumeBase(r *verifsim.SplitMix, prop string) txSpec {
 		d := []string{"", "", "sub/"}[r.Intn(3)]
 		sp.Files = append(sp.Files, txFile{P: fmt.Sprintf("%sf%d.bin", d, i), N: n})
 	}
+	if r.Chance(1, 6) {
+		// one file of many chunks (its bitmap spans several bytes, and a machine word): small
+		// chunks keep it light
+		sp.Chunk = []uint32{7, 64}[r.Intn(2)]
+		c = int(sp.Chunk)
+		for i := range sp.Files {
+			if sp.Files[i].N > 8*c {
+				sp.Files[i].N = 8 * c
+			}
+		}
+		sp.Files[0].N = (57+r.Intn(150))*c - r.Intn(c)
+	}
 	sort.Slice(sp.Files, func(i, j int) bool { return sp.Files[i].P < sp.Files[j].P })
 	total := 0
 	for _, f := range sp.Files {
